@@ -45,7 +45,14 @@ def scenario_list(ctx):
 
 
 def run_one(ctx, exe, sc, noise=None, dump=False):
-    text = calcore.scenario_script(sc, script=calcore.Script(noise), dump=dump).text()
+    import random
+    hist = random.Random(sc.hist_seed)
+    # history variations that must not matter: parameters created up front in shuffled order among
+    # unused ones (scattered indices, hash resizes), vector standards with extra knots above the band
+    # that are evaluated there before the solve
+    pool = random.Random(hist.getrandbits(32)) if hist.random() < 0.7 else None
+    extend = random.Random(hist.getrandbits(32)) if hist.random() < 0.6 else None
+    text = calcore.scenario_script(sc, script=calcore.Script(noise, pool=pool, extend=extend), dump=dump).text()
     rc, out, err = calcore.run_script(ctx, exe, "live\n" + text + "free 0\nlive\n")
     return text, rc, out, err
 
@@ -57,6 +64,7 @@ def e2e(ctx, exe):
     for i, (typ, r, c, F, form) in enumerate(specs):
         rng = random.Random(ctx.rng.getrandbits(64))
         scen.append(calcore.gen_scenario(rng, typ, r, c, F, form=form))
+        scen[-1].hist_seed = rng.getrandbits(32)
     results = [None] * len(scen)
     with concurrent.futures.ThreadPoolExecutor(max_workers=min(8, vplib.NPROC)) as ex:
         futs = {ex.submit(run_one, ctx, exe, sc): i for i, sc in enumerate(scen)}
@@ -179,23 +187,26 @@ def directed(ctx, exe):
                 bad.append(({"kind": "ledger", "class": "leak-after-new-free", "type": typ},
                             "%s %dx%d: %d blocks still allocated after vnacal_new_free (parameters made: %d)"
                             % (typ, r, c, lives[1] - lives[0], s.npar), s.text(), ""))
-    # rectangular S on a diagonal type: the model (AddModel.add_common) predicts that every argument
-    # check passes and that build_terms_t8 then fails its assert(vnprp != NULL) (theorem
-    # rectangular_s_reaches_assert_refuted); replayed here on the library
+    # rectangular S on a diagonal type (D63, repaired): must be refused with EINVAL, as the model says
+    # (Properties_C01.rectangular_s_refused); before the repair build_terms_t8 aborted on an assert
     text = ("new 0 0 2 2 1 %s\nscalar 0 0x1.3333333333333p-2 0x0p+0\nscalar 1 0x1.999999999999ap-3 0x0p+0\n"
             "add 0 mm m 0 0 2 2 0x1p-1 0x0p+0 0x1p-3 0x0p+0 0x1p-3 0x0p+0 0x1p-2 0x0p+0 2 1 p0 p1 1 1 2\nhash 0\n"
             % calcore.hx(1e9))
     rc, out, err = calcore.run_script(ctx, exe, text)
     ctx.count(("directed", "rectangular-S"))
-    if rc != 0 and "Assertion" in err and "build_terms_t8" in err:
-        ctx.violation({"kind": "abort", "function": "build_terms_t8", "case": "T8 2x2, S 2x1, port map {1,2}"},
-                      "vnacal_new_add_mapped_matrix_m on a T8 2x2 calibration with a 2x1 S matrix and port map {1,2} passes "
-                      "every argument check and then aborts in build_terms_t8: assert(vnprp != NULL)",
-                      {"script": text, "stderr": err[-1500:], "expected": "EINVAL or an accepted standard, never abort()",
-                       "model": "AddModel.add_common = Aborts 11 (Properties_C01.rectangular_s_reaches_assert_refuted)"})
-    elif rc != 0:
-        sig = vplib.asan_signature(err) or {"kind": "fault", "error": "exit %d" % rc, "function": None}
-        bad.append((sig, "T8 2x2 with a 2x1 S matrix: " + err.strip().split("\n")[0][:200], text, err))
+    if rc != 0:
+        sig = vplib.asan_signature(err) or {"kind": "abort", "function": "build_terms_t8" if "build_terms_t8" in err else None,
+                                            "error": "exit %d" % rc}
+        bad.append((sig, "T8 2x2 with a 2x1 S matrix and port map {1,2}: " + (err.strip().split("\n") or [""])[0][:200], text, err))
+    else:
+        a_ = [x for k, x in calcore.parse_output(out) if k == "add"]
+        h_ = [x for k, x in calcore.parse_output(out) if k == "hash"]
+        if not a_ or a_[0].get("rc") != "-1" or a_[0].get("errno") != "EINVAL":
+            bad.append(({"kind": "e2e", "class": "rectangular-S-not-refused", "type": "T8"},
+                        "T8 2x2 with a 2x1 S matrix is not refused with EINVAL: %s" % (a_[0]["line"] if a_ else out[:100]), text, ""))
+        elif h_ and h_[0].get("count") != "1":
+            bad.append(({"kind": "e2e", "class": "refused-add-registers-parameters", "type": "T8"},
+                        "a refused add left parameters in the vnacal_new_t: " + h_[0]["line"], text, ""))
     ctx.obligation("tie:directed NULL-port-map / ledger cases", not bad, bad[0][1] if bad else "")
     for sig, what, text, err in bad:
         ctx.violation(sig, what, {"script": text[:100000], "stderr": err[-3000:]})
@@ -311,8 +322,8 @@ def structural(ctx, exe):
             if dims_allowed(typ, r, c):
                 break
         merr = 1 if rng.random() < 0.15 else 0
-        adds, handle = calcore.gen_struct_case(rng, typ, r, c, rng.randint(1, 6))
-        cases.append({"typ": typ, "r": r, "c": c, "merr": merr, "adds": adds, "handle": handle, "npar": 4})
+        adds, handle, npar = calcore.gen_struct_case(rng, typ, r, c, rng.randint(1, 12))
+        cases.append({"typ": typ, "r": r, "c": c, "merr": merr, "adds": adds, "handle": handle, "npar": npar})
     # model
     lines = []
     for cs in cases:
